@@ -162,6 +162,9 @@ TieredElect ==
           /\ rounds' = Append(rounds, Round(<<t[1]>>, <<>>, Tail(t), {}, <<>>, p))
           /\ status' = "finished"
      ELSE \E o \in ElectTop(t, cfg.m, "borda", Borda(prof, cur)) :
+          IF o.err          \* only for a seat count outside 1..number of candidates
+          THEN /\ status' = "ValueError" /\ plabel' = R(1) /\ UNCHANGED <<prof, cur, rounds>>
+          ELSE
           LET W == UNION Range(o.elected)
               p == RemoveCands(prof, W)
           IN /\ prof' = p /\ cur' = cur \ W
@@ -352,6 +355,7 @@ Progress == [][status = "running" /\ status' = "running" => Variant' < Variant]_
 BoundedRounds == Len(rounds) <= Cardinality(cands) + 2
 (* C01: ValueError only for an unbroken tie that straddles the last seat being filled (or a cut larger than the field) *)
 ErrorDiscipline == status = "ValueError" => cfg.tb = "none" \/ (cfg.rule \in Composite /\ CutSize > Cardinality(cur))
+                                             \/ cfg.m < 1 \/ cfg.m > Cardinality(cands)
 (* C02 *)
 ThresholdFixed == [][stage = "main" /\ stage' = "main" => thr' = thr]_vars
 (* C03: totals never increase; an election round consumes at least the threshold per quota-elected candidate; *)
